@@ -7,7 +7,7 @@
 (***************************************************************************)
 EXTENDS Arrays, Json
 
-CONSTANTS U, Full2D, Emit
+CONSTANTS U, Full2D, Emit, PtLens       \* PtLens: numbers of points of the pointwise family
 VARIABLES in, out, ph
 vars == <<in, out, ph>>
 
@@ -46,6 +46,21 @@ IdxTuples(labs, mode) ==
   ELSE {<<ix>> \o t : ix \in (IF mode = "label" THEN LabelMenu(Head(labs)) ELSE PosMenu(Len(Head(labs)))),
                       t \in IdxTuples(Tail(labs), mode)}
 
+\* pointwise family: per dimension a list / mask with exactly n entries, a scalar, or a full slice
+TruesOf(m) == Cardinality({i \in DOMAIN m : m[i]})
+PtMenuLabel(L, n) ==
+  {IxAll, IxSc(L[1]), IxSc(L[Len(L)])}
+  \cup {IxLi(s) : s \in InjSeqs(Range(L), n)} \cup {IxLi([i \in 1..n |-> L[Len(L)]]), IxLi([i \in 1..n |-> L[1] + 1])}
+  \cup {IxMk(m) : m \in {mm \in Masks(Len(L)) : TruesOf(mm) = n}}
+PtMenuPos(len, n) ==
+  {IxAll, IxSc(0), IxSc(-1)}
+  \cup {IxLi(s) : s \in InjSeqs(0..(len - 1), n)} \cup {IxLi([i \in 1..n |-> -1]), IxLi([i \in 1..n |-> len])}
+  \cup {IxMk(m) : m \in {mm \in Masks(len) : TruesOf(mm) = n}}
+RECURSIVE PtTuples(_, _, _)
+PtTuples(labs, mode, n) ==
+  IF labs = <<>> THEN {<<>>}
+  ELSE {<<ix>> \o t : ix \in (IF mode = "label" THEN PtMenuLabel(Head(labs), n) ELSE PtMenuPos(Len(Head(labs)), n)),
+                      t \in PtTuples(Tail(labs), mode, n)}
 MkArr(labs, dt) == Fresh(SubSeq(DimNames, 1, Len(labs)), [i \in 1..Len(labs) |-> "i"], labs,
                          [i \in 1..Len(labs) |-> i], dt, 7, 100)
 NoRhs == [shape |-> <<>>, cells |-> <<>>, kind |-> ""]
@@ -65,6 +80,8 @@ ChooseArray ==
           in' = [NoIn EXCEPT !.fam = "dtypes", !.a = MkArr(labs, dt), !.mode = "label"]
      \/ \E labs \in {<<<<4, 2>>, <<2, 6>>>>, <<<<2, 4>>, <<6, 2, 4>>>>, <<<<2>>, <<4, 2>>, <<2, 6>>>>} : \E dt \in {"f", "i"} :
           in' = [NoIn EXCEPT !.fam = "mask", !.a = MkArr(labs, dt), !.mode = "label"]
+     \/ \E labs \in {<<<<4, 2, 6>>, <<2, 6, 4>>>>, <<<<4, 2>>, <<2, 6, 4>>, <<6, 2>>>>} : \E dt \in {"f", "i"} : \E mode \in {"label", "position"} :
+          in' = [NoIn EXCEPT !.fam = "points", !.a = MkArr(labs, dt), !.mode = mode]
      \/ \E labs \in {<<<<4, 2, 6>>>>, <<<<2, 4>>, <<6, 2, 4>>>>} : \E dt \in Kinds :
           in' = [NoIn EXCEPT !.fam = "values", !.a = MkArr(labs, dt), !.mode = "label"]
 
@@ -77,6 +94,11 @@ ChooseIndex ==
                                   in' = [in EXCEPT !.idxs = <<ix>> \o [i \in 1..(NDim(in.a) - 1) |-> IxAll]]
        [] in.fam = "mask"   -> \E m \in [1..Prod(Shape(in.a)) -> BOOLEAN] : in' = [in EXCEPT !.mask = m]
        [] in.fam = "values" -> in' = [in EXCEPT !.idxs = [i \in 1..NDim(in.a) |-> IxAll]]
+       [] in.fam = "points" -> \E n \in PtLens : \E idxs \in PtTuples(in.a.labs, in.mode, n) :
+                                  \* at least two paired dimensions (one list alone is the orthogonal case), 3-d arrays only with n = 2
+                                  /\ Cardinality({i \in 1..Len(idxs) : idxs[i].k \in {"li", "mk"}}) >= 2
+                                  /\ (NDim(in.a) = 3 => n = 2)
+                                  /\ in' = [in EXCEPT !.idxs = idxs]
 
 \* shape of the selection (dropped dimensions removed), <<>> when the index does not resolve
 SelShape ==
@@ -87,6 +109,13 @@ HasRepeat == \E i \in 1..Len(in.idxs) : in.idxs[i].k = "li" /\ ~NoDup(in.idxs[i]
 RhsShapes(S) == {<<>>} \cup (IF HasRepeat THEN {} ELSE
                   {S} \cup (IF Len(S) >= 2 THEN {<<S[Len(S)]>>, <<1>> \o Tail(S)} ELSE {}))
 
+\* a 1-d right-hand side (one value per point) only when there is no slice dimension and the points are distinct
+PtRhsShapes ==
+  LET r == ResolveIndex(in.a, in.idxs, in.mode, in.tol)
+      n == PointCount(r, in.idxs)
+  IN IF (\A i \in 1..Len(r) : r[i].ok) /\ PointsOK(r, in.idxs) /\ (\A i \in 1..Len(r) : in.idxs[i].k # "all")
+        /\ (\A p, q \in 1..n : p # q => PointCoord(r, in.idxs, p) # PointCoord(r, in.idxs, q))
+     THEN {<<n>>} ELSE {}
 ChooseRhs ==
   /\ ph = 2 /\ ph' = 3 /\ out' = out
   /\ CASE in.fam = "forms"  -> \E sh \in RhsShapes(SelShape) : \E ip \in BOOLEAN :
@@ -99,6 +128,9 @@ ChooseRhs ==
                                   /\ in' = [in EXCEPT !.rhs = MkRhs(sh, k), !.inplace = ip, !.cast = cast]
        [] in.fam = "values" -> \E k \in Kinds : \E sh \in {<<>>, Shape(in.a), <<Shape(in.a)[NDim(in.a)]>>} :
                                   in' = [in EXCEPT !.rhs = MkRhs(sh, k), !.cast = TRUE]
+       [] in.fam = "points" -> \E kc \in {<<in.a.dtype, FALSE>>, <<IF in.a.dtype = "f" THEN "i" ELSE "f", TRUE>>, <<"O", TRUE>>} :
+                               \E ip \in BOOLEAN : \E sh \in {<<>>} \cup PtRhsShapes :
+                                  in' = [in EXCEPT !.rhs = MkRhs(sh, kc[1]), !.cast = kc[2], !.inplace = ip]
 
 \* N-d boolean mask assignment: cells where the mask is TRUE receive the scalar, or the k-th value of a 1-d rhs
 PutMask(a, m, rhs) ==
@@ -114,9 +146,13 @@ DtypeSet(a, res, rhs, cast) ==
 Apply ==
   /\ ph = 3 /\ ph' = 4 /\ in' = in
   /\ LET r == IF in.fam = "mask" THEN Ok(PutMask(in.a, in.mask, in.rhs))
+              ELSE IF in.fam = "points" THEN PutPoints(in.a, in.idxs, in.mode, in.tol, in.rhs)
               ELSE Put(in.a, in.idxs, in.mode, in.tol, in.rhs)
-         rb == IF r.ok /\ in.fam # "mask" THEN Take(r.val, in.idxs, in.mode, in.tol) ELSE Err("")
-     IN /\ out' = [r |-> r, dtypes |-> IF r.ok THEN DtypeSet(in.a, r.val, in.rhs, in.cast) ELSE {}, readback |-> rb]
+         rb == IF r.ok /\ in.fam \notin {"mask", "points"} THEN Take(r.val, in.idxs, in.mode, in.tol) ELSE Err("")
+         \* pointwise read-back: one value per point, when no dimension is sliced
+         pts == IF r.ok /\ in.fam = "points" /\ (\A i \in 1..Len(in.idxs) : in.idxs[i].k # "all")
+                THEN TakePoints(r.val, in.idxs, in.mode, in.tol) ELSE Err("")
+     IN /\ out' = [r |-> r, dtypes |-> IF r.ok THEN DtypeSet(in.a, r.val, in.rhs, in.cast) ELSE {}, readback |-> rb, pts |-> pts]
         /\ (Emit => PrintT(ToJson([op |-> "put", in |-> in, out |-> out'])))
 
 Next == ChooseArray \/ ChooseIndex \/ ChooseRhs \/ Apply
@@ -125,7 +161,7 @@ Spec == Init /\ [][Next]_vars
 (* ---------- theorems ---------- *)
 \* frame condition: cells not addressed by the index keep their value; axes and metadata unchanged
 Frame ==
-  (ph = 4 /\ out.r.ok /\ in.fam # "mask") =>
+  (ph = 4 /\ out.r.ok /\ in.fam \notin {"mask", "points"}) =>
     LET r == ResolveIndex(in.a, in.idxs, in.mode, in.tol)
         cs == Coords(Shape(in.a))
         addressed(c) == \A i \in 1..Len(c) : \E j \in 1..Len(r[i].pos) : r[i].pos[j] = c[i]
@@ -133,10 +169,25 @@ Frame ==
        /\ [out.r.val EXCEPT !.cells = in.a.cells] = in.a
 \* reading back the same index returns the broadcast right-hand side
 ReadBack ==
-  (ph = 4 /\ out.r.ok /\ in.fam # "mask" /\ ~HasRepeat) =>
+  (ph = 4 /\ out.r.ok /\ in.fam \notin {"mask", "points"} /\ ~HasRepeat) =>
     /\ out.readback.ok
     /\ LET S == ShapeOf(out.readback.val.labs)  cs == Coords(S)
        IN \A k \in 1..Len(cs) : out.readback.val.cells[k] = BcastCell(in.rhs, S, cs[k])
 \* an assignment fails iff the read through the same index fails
-ErrIffReadErr == ph = 4 /\ in.fam # "mask" => (out.r.ok <=> Take(in.a, in.idxs, in.mode, in.tol).ok)
+ErrIffReadErr == ph = 4 /\ in.fam \notin {"mask", "points"} => (out.r.ok <=> Take(in.a, in.idxs, in.mode, in.tol).ok)
+\* pointwise assignment: a cell changes iff one of the points addresses it; never more cells than the orthogonal box;
+\* what the same pointwise index reads back is the assigned value
+PointsFrame ==
+  (ph = 4 /\ in.fam = "points" /\ out.r.ok) =>
+    LET r == ResolveIndex(in.a, in.idxs, in.mode, in.tol)
+        cs == Coords(Shape(in.a))
+        box == Put(in.a, in.idxs, in.mode, in.tol, MkRhs(<<>>, "f")).val
+    IN /\ \A k \in 1..Len(cs) : (out.r.val.cells[k] > 900) <=> (\E p \in 1..PointCount(r, in.idxs) : Hits(r, in.idxs, cs[k], p))
+       /\ \A k \in 1..Len(cs) : out.r.val.cells[k] > 900 => box.cells[k] > 900
+       /\ \A k \in 1..Len(cs) : out.r.val.cells[k] <= 900 => out.r.val.cells[k] = in.a.cells[k]
+       /\ [out.r.val EXCEPT !.cells = in.a.cells] = in.a
+PointsReadBack ==
+  (ph = 4 /\ in.fam = "points" /\ out.pts.ok) =>
+    \A p \in 1..Len(out.pts.val) : out.pts.val[p] > 900 /\ (in.rhs.shape # <<>> => out.pts.val[p] = in.rhs.cells[p])
+PointsErr == (ph = 4 /\ in.fam = "points") => (out.r.ok <=> TakePoints(in.a, in.idxs, in.mode, in.tol).ok)
 =============================================================================
